@@ -7,6 +7,7 @@
 int verif_cur;
 unsigned verif_budget;
 int verif_changed;
+int verif_mode;
 int verif_last[VERIF_NSLOT];
 u32* verif_blocked_on[VERIF_NSLOT];
 int verif_done[VERIF_NSLOT];
@@ -17,6 +18,7 @@ int verif_nd_cnt;
 u8 verif_budget_log[VERIF_R][VERIF_NSLOT];
 int verif_live_allocs;
 
+void verif_glue_ctors(void);
 void verif_glue_init(void);
 void verif_glue_final(void);
 void verif_glue_main(void);
@@ -43,6 +45,16 @@ static unsigned verif_src_budget(int r, int t)
 #include "rt_concrete.h"
 #endif
 
+/* runtime-internal obligations (double delete, model capacity ...): not part of the event hash, since
+   the native replay runtime has no counterpart for them */
+#if VERIF_CONCRETE
+#define VERIF_RT_ASSERT(c, msg)                                                                                                                      \
+    do {                                                                                                                                             \
+        if (!(c)) verif_concrete_finish("FAIL", msg);                                                                                                \
+    } while (0)
+#else
+#define VERIF_RT_ASSERT(c, msg) __CPROVER_assert((c), msg)
+#endif
 static u64 verif_draw(void)
 {
     u64 v = verif_src_next();
@@ -128,7 +140,7 @@ void verif_memset(void* d, u8 v, u64 n) { memset(d, v, n); }
 void* malloc(size_t);
 void free(void*);
 #define VERIF_FREED_MAX 16
-static void* verif_freed[VERIF_FREED_MAX];
+static void* verif_freed[VERIF_FREED_MAX + 64]; /* > 64 elements: one array symbol for CBMC */
 static int verif_nfreed;
 static void* verif_alloc(u64 n)
 {
@@ -141,7 +153,7 @@ static void verif_dealloc(void* p)
 {
     if (!p) return;
     for (int i = 0; i < VERIF_FREED_MAX; i++)
-        if (i < verif_nfreed) VERIF_ASSERT(verif_freed[i] != p, "double free / double delete");
+        if (i < verif_nfreed) VERIF_RT_ASSERT(verif_freed[i] != p, "double free / double delete");
     if (verif_nfreed < VERIF_FREED_MAX) verif_freed[verif_nfreed] = p;
     verif_nfreed++;
     verif_live_allocs--;
@@ -187,17 +199,17 @@ u32 verif_rt_memcmp(void* a, void* b, u64 n)
 u32 verif_rt_bcmp(void* a, void* b, u64 n) { return verif_rt_memcmp(a, b, n); }
 void verif_rt_abort(void)
 {
-    VERIF_ASSERT(0, "abort() called");
+    VERIF_RT_ASSERT(0, "abort() called");
     VERIF_ASSUME(0);
 }
 void verif_rt__ZSt9terminatev(void)
 {
-    VERIF_ASSERT(0, "std::terminate called");
+    VERIF_RT_ASSERT(0, "std::terminate called");
     VERIF_ASSUME(0);
 }
 void verif_rt___cxa_pure_virtual(void)
 {
-    VERIF_ASSERT(0, "pure virtual call");
+    VERIF_RT_ASSERT(0, "pure virtual call");
     VERIF_ASSUME(0);
 }
 u32 verif_rt___cxa_guard_acquire(void* g) { return *(u8*) g == 0; }
@@ -206,37 +218,37 @@ void verif_rt___cxa_guard_abort(void* g) {}
 u32 verif_rt___cxa_atexit(void* f, void* a, void* d) { return 0; }
 void verif_rt__ZSt20__throw_length_errorPKc(void* m)
 {
-    VERIF_ASSERT(0, "std::__throw_length_error");
+    VERIF_RT_ASSERT(0, "std::__throw_length_error");
     VERIF_ASSUME(0);
 }
 void verif_rt__ZSt17__throw_bad_allocv(void)
 {
-    VERIF_ASSERT(0, "std::__throw_bad_alloc");
+    VERIF_RT_ASSERT(0, "std::__throw_bad_alloc");
     VERIF_ASSUME(0);
 }
 void verif_rt__ZSt28__throw_bad_array_new_lengthv(void)
 {
-    VERIF_ASSERT(0, "std::__throw_bad_array_new_length");
+    VERIF_RT_ASSERT(0, "std::__throw_bad_array_new_length");
     VERIF_ASSUME(0);
 }
 void verif_rt__ZSt19__throw_logic_errorPKc(void* m)
 {
-    VERIF_ASSERT(0, "std::__throw_logic_error");
+    VERIF_RT_ASSERT(0, "std::__throw_logic_error");
     VERIF_ASSUME(0);
 }
 void verif_rt__ZSt24__throw_out_of_range_fmtPKcz(void* m, ...)
 {
-    VERIF_ASSERT(0, "std::__throw_out_of_range_fmt");
+    VERIF_RT_ASSERT(0, "std::__throw_out_of_range_fmt");
     VERIF_ASSUME(0);
 }
 void verif_rt__ZSt25__throw_bad_function_callv(void)
 {
-    VERIF_ASSERT(0, "std::__throw_bad_function_call");
+    VERIF_RT_ASSERT(0, "std::__throw_bad_function_call");
     VERIF_ASSUME(0);
 }
 void verif_rt__ZSt20__throw_system_errori(u32 e)
 {
-    VERIF_ASSERT(0, "std::__throw_system_error");
+    VERIF_RT_ASSERT(0, "std::__throw_system_error");
     VERIF_ASSUME(0);
 }
 
@@ -257,7 +269,7 @@ static void* verif_exc_type_of(void* o)
 }
 void verif_rt___cxa_throw(void* o, void* ti, void* dtor)
 {
-    VERIF_ASSERT(verif_exc_n < VERIF_EXC_MAX, "exception model: too many exceptions thrown");
+    VERIF_RT_ASSERT(verif_exc_n < VERIF_EXC_MAX, "exception model: too many exceptions thrown");
     if (verif_exc_n < VERIF_EXC_MAX)
     {
         verif_exc_objs[verif_exc_n] = o;
@@ -272,7 +284,7 @@ void verif_rt___cxa_throw(void* o, void* ti, void* dtor)
 void* verif_rt___cxa_begin_catch(void* o)
 {
     int n = verif_ncaught[verif_cur];
-    VERIF_ASSERT(n < 4, "exception model: catch nesting too deep");
+    VERIF_RT_ASSERT(n < 4, "exception model: catch nesting too deep");
     if (n < 4) verif_caught[verif_cur][n] = o;
     verif_ncaught[verif_cur] = n + 1;
     return o;
@@ -380,6 +392,7 @@ int main(int argc, char** argv)
 #endif
     verif_cur = VERIF_NT;
     verif_budget = 0x7fffffff;
+    verif_glue_ctors();
     if (verif_glue_nthreads == 0)
     {
         verif_glue_main();
